@@ -292,6 +292,14 @@ def teval(t: Term, env: dict):
         if not isinstance(v_, _pl.PurePath):
             raise Unknown(f"{op} of a non-path")
         return getattr(v_, op[5:])
+    if op == "cbor" and len(a) == 1:
+        from . import cbor_mini
+        try:
+            return cbor_mini.dumps(ev(a[0]))
+        except Unknown:
+            raise
+        except Exception as e:
+            raise Unknown(f"cbor: {e}")
     if op == "fmt" and len(a) in (2, 3):
         try:
             v_ = ev(a[0])
